@@ -94,6 +94,12 @@ CHECKS = {
    text="Each generated program (text, numeric fast paths, escaping, macros, call blocks, includes, captures, recursive loops, inheritance, self-failing programs) is first rendered into a recording sink; then the sink fails at the k-th write for every k (sampled beyond 96 writes) and the bytes received, the absence of later writes, the returned ErrorKind::WriteFailure and its io::Error source are checked; render_captured_to and State::render_block_to_write.",
    note="Assumes the write sequence of a render is deterministic (verified per case against render()).",
    design="3/C19"),
+ "C20": dict(
+   technique="schedule enumeration as property-based testing: every placement of up to 3 reload requests at the lock-granularity yield points of up to 3 acquire_env calls (through feature-guarded hooks) x option combinations, history invariant over a logical clock; proptest for longer schedules; real-thread stress as smoke test",
+   level="exploration",
+   text="All schedules of up to 3 acquires and up to 3 requests (placed before the acquire, after the cache lock, between check and flag reset, between reset and creator, inside the creator, after the rebuild, before return) x fast reload x freshness callback x failing creator are executed against the real AutoReloader; for every request that returned at logical time t the first successful acquire started after t must return an environment whose creator started (or whose cache was cleared) after t; the environment must not change under a held guard; no rebuild without a request.",
+   note="Interleavings are produced deterministically on one thread through the yield-point callback (the notifier lock is not held at those points); preemption inside a critical section is not modelled. The thread stress part only samples.",
+   design="3/C20"),
 }
 
 NOT_YET = "check not built yet in this session (work in progress; see DESIGN.md section 3 for the planned check)"
